@@ -13,14 +13,13 @@ Notation outboard := (outboard HO).
 Notation item := (item HO).
 
 (* ---------- ResponseDecoder (fsm.rs:316-449) ---------- *)
-Record rstate := mkR { r_iter : ppstate; r_stack : list hash; r_enc : bytes }.
+Record rstate := mkR { r_iter : ppstate; r_stack : list hash; r_enc : bytes; r_root : hash }.
 
 Definition rd_new (root : hash) (q : ranges) (t : tree) (encoded : bytes) : rstate :=
-  mkR (response_new t (truncate_ranges_owned q (tsize t))) [root] encoded.
+  mkR (response_new t (truncate_ranges_owned q (tsize t))) [root] encoded root.
 Definition rd_tree (st : rstate) : tree := response_tree (r_iter st).
-(* &self.0.stack[0]: the bottom of the stack; None = index out of bounds panic *)
-Definition rd_hash (st : rstate) : option hash :=
-  match r_stack st with [] => None | _ => Some (last (r_stack st) []) end.
+(* &self.0.hash: the root hash kept in its own field (None would be a panic; there is none) *)
+Definition rd_hash (st : rstate) : option hash := Some (r_root st).
 Definition rd_finish (st : rstate) : bytes := r_enc st.
 
 Inductive rnext := RMore (st : rstate) (r : res dec_err item) | RDone (reader : bytes).
@@ -30,31 +29,31 @@ Definition rd_next (st : rstate) : rnext :=
   | None => RDone (r_enc st)
   | Some (CParent node is_root lf rt _, it') =>
       let enc := r_enc st in
-      if blen HO enc <? 64 then RMore (mkR it' (r_stack st) enc) (Err (DParentNotFound node))
+      if blen HO enc <? 64 then RMore (mkR it' (r_stack st) enc (r_root st)) (Err (DParentNotFound node))
       else
         let '(l, r) := parse_pair HO (take HO 64 enc) in
         let enc' := drop HO 64 enc in
         match r_stack st with
-        | [] => RMore (mkR it' [] enc') Panic
+        | [] => RMore (mkR it' [] enc' (r_root st)) Panic
         | ph :: stk =>
             let actual := parent_cv HO l r is_root in
             let stk1 := if rt then r :: stk else stk in
             let stk2 := if lf then l :: stk1 else stk1 in
-            if negb (bytes_eqb HO ph actual) then RMore (mkR it' stk2 enc') (Err (DParentHashMismatch node))
-            else RMore (mkR it' stk2 enc') (Ok (IParent node l r))
+            if negb (bytes_eqb HO ph actual) then RMore (mkR it' stk2 enc' (r_root st)) (Err (DParentHashMismatch node))
+            else RMore (mkR it' stk2 enc' (r_root st)) (Ok (IParent node l r))
         end
   | Some (CLeaf start size is_root _, it') =>
       let enc := r_enc st in
-      if blen HO enc <? size then RMore (mkR it' (r_stack st) []) (Err (DLeafNotFound start))
+      if blen HO enc <? size then RMore (mkR it' (r_stack st) [] (r_root st)) (Err (DLeafNotFound start))
       else
         let data := take HO size enc in
         let enc' := drop HO size enc in
         match r_stack st with
-        | [] => RMore (mkR it' [] enc') Panic
+        | [] => RMore (mkR it' [] enc' (r_root st)) Panic
         | lh :: stk =>
             let actual := hash_subtree HO start data is_root in
-            if negb (bytes_eqb HO lh actual) then RMore (mkR it' stk enc') (Err (DLeafHashMismatch start))
-            else RMore (mkR it' stk enc') (Ok (ILeaf (to_bytes start) data))
+            if negb (bytes_eqb HO lh actual) then RMore (mkR it' stk enc' (r_root st)) (Err (DLeafHashMismatch start))
+            else RMore (mkR it' stk enc' (r_root st)) (Ok (ILeaf (to_bytes start) data))
         end
   end.
 
@@ -320,6 +319,7 @@ Definition valid_outboard_ranges_fsm (ob : outboard) (q : ranges) : list (N * N)
     validate_rec_fsm 70 false t filled ob [] (ob_root ob) root true q'.
 
 End Fsm.
+Arguments RMore {HO}. Arguments RDone {HO}.
 
 (* ---------- src/io/mixed.rs ---------- *)
 Section Mixed.
